@@ -57,6 +57,46 @@ pub fn gen_case(seed: u64, idx: u64) -> Case {
     Case { set, params, single_file, desc }
 }
 
+/// One input with a block of more than 1 MiB (a satellite array that ends up as one plain
+/// reference part) followed by contigs with long tandem duplications: the bytes written for the
+/// later parts must not depend on which worker thread compressed the big block before them
+/// (thread-local ZSTD contexts, work stealing).
+pub fn gen_large_block_case(seed: u64) -> Case {
+    let mut rng = Rng::new(seed, 404, 0);
+    let unit: Vec<u8> = genomes::random_seq(&mut rng, 171);
+    let mut sat: Vec<u8> = Vec::with_capacity(1_150_000);
+    while sat.len() < 1_150_000 {
+        for &b in &unit {
+            sat.push(if rng.chance(1, 400) { b"ACGT"[rng.below(4) as usize] } else { b });
+        }
+    }
+    let mut s1 = vec![("A#1#sat".to_string(), sat)];
+    let mut s2 = vec![];
+    for i in 0..24 {
+        let blen = rng.range(1500, 4000) as usize;
+        let base = genomes::random_seq(&mut rng, blen);
+        let mut v = base.clone();
+        for _ in 0..rng.range(1, 3) {
+            let a = rng.below((base.len() - 200) as u64) as usize;
+            let l = rng.range(64, 200) as usize;
+            let ins = base[a..a + l].to_vec();
+            let at = rng.below(v.len() as u64) as usize;
+            v.splice(at..at, ins);
+        }
+        s1.push((format!("A#1#c{i}"), v.clone()));
+        let mut w = v;
+        for _ in 0..5 {
+            let p = rng.below(w.len() as u64) as usize;
+            w[p] = b"ACGT"[rng.below(4) as usize];
+        }
+        s2.push((format!("B#1#c{i}"), w));
+    }
+    let set = genomes::SampleSet { samples: vec![genomes::Sample { name: "A#1".into(), contigs: s1 }, genomes::Sample { name: "B#1".into(), contigs: s2 }] };
+    let params = Params { k: 21, segment_size: 2000, min_match_len: 20, pack_size: 50, threads: 1, queue_capacity: 2 << 30, fallback_frac: 0.0 };
+    let desc = json!({"seed": seed, "index": "large-block", "single_file": true, "contigs": 49, "params": params.to_json()});
+    Case { set, params, single_file: true, desc }
+}
+
 pub fn run_case(workdir: &str, seed: u64, rep: &mut Report, case: &Case, tag: &str, builds: usize) {
     let dir = PathBuf::from(workdir).join(format!("c04_{tag}"));
     let _ = std::fs::remove_dir_all(&dir);
@@ -183,6 +223,11 @@ pub fn run(ctx: &mut Ctx) -> Report {
     );
     if let Some(r) = ctx.replay.clone() {
         let c = &r["case"];
+        if c["index"] == "large-block" {
+            let case = gen_large_block_case(c["seed"].as_u64().unwrap_or(1));
+            run_case(&ctx.workdir, ctx.seed, &mut rep, &case, "replay", 8);
+            return rep;
+        }
         let case = gen_case(c["seed"].as_u64().unwrap_or(1), c["index"].as_u64().unwrap_or(0));
         if traced_builds(ctx, &mut rep, &case, "replay", 4) {
             run_case(&ctx.workdir, ctx.seed, &mut rep, &case, "replay", 8);
@@ -202,6 +247,14 @@ pub fn run(ctx: &mut Ctx) -> Report {
         }
     }
     let (seed, workdir) = (ctx.seed, ctx.workdir.clone());
+    {
+        // large-block case: builds with 1, 2, 4 (and more) threads, several times each
+        let case = gen_large_block_case(seed);
+        let t0 = std::time::Instant::now();
+        run_case(&workdir, seed, &mut rep, &case, "large", ctx.t(5, 10));
+        rep.add("large_block_case_ms", t0.elapsed().as_millis() as u64);
+        rep.count("branch_block_over_1mib");
+    }
     crate::props::par_cases(ctx, &mut rep, n, 5, |_m, r, i| {
         let case = gen_case(seed, i);
         run_case(&workdir, seed, r, &case, &format!("{i}"), builds);
